@@ -35,18 +35,21 @@ def main(tier, replay=None):
     pb = 2 if tier == "quick" else 4
     for prog in ("rspawn", "lspawn"):
         vk_run(res, "c18spawn", plain, rd, "%d,0,0,0" % pb, pb, 1500, "%s-relays-child-fate" % prog, opts=["family=fate", "prog=" + prog])
+        vk_run(res, "c18spawn", plain, rd, "0,0,0,0", 0, 1500, "%s-slot-used-again" % prog, opts=["family=reuse", "prog=" + prog, "seqlen=%d" % (2 if tier == "quick" else 3)])
     # program level: the real qmail-remote process with scripted resolver answers, connect() outcomes and SMTP server
     for fam, opts in (("dns", []), ("connect", []), ("smtp", ["maxrcpt=%d" % (2 if tier == "quick" else 3)]), ("msg", ["maxlen=%d" % (3 if tier == "quick" else 5)])):
         vk_run(res, "remote", plain, rd, "0,0,0,0", 0, 1500, "qmail-remote-process-" + fam, opts=["family=" + fam] + opts)
     res.rule = ("depth-first enumeration of the complete tree of server scripts: at each phase (greeting, HELO, MAIL, each RCPT, DATA, "
                 "final dot) every answer of the phase's pool (reply codes of classes 2xx-5xx incl. boundary codes 399/400/499/500/599 in "
-                "single-line, multi-line and odd forms; garbage reply; disconnect or stall before / inside a reply), pruned only where the "
+                "single-line, multi-line and odd forms incl. one 73-line reply of 5400 bytes (more than the client keeps for its report); garbage reply; disconnect or stall before / inside a reply), pruned only where the "
                 "reference says the client has finished; variants = every single split point of the reply stream, 1-byte reads, replies sent "
                 "ahead of the commands, each client write failing; each run executes the real smtp() and (n=1) feeds its output to the real "
                 "report(); report() alone on every (status, output) pair; non-trivial = scripts (each distinct by construction)")
     res.rule += ("; process level (VK): the real qmail-rspawn and qmail-lspawn with a scripted delivery program that prints one of 9 "
                  "reports, closes its output and then exits 0/1/100/111 or dies from SIGSEGV/SIGKILL, under every interleaving of spawner and "
-                 "child within the preemption bound (%d): the relayed status must follow the child's fate (crash/111 -> Z, other failure -> D)" % pb)
+                 "child within the preemption bound (%d): the relayed status must follow the child's fate (crash/111 -> Z, other failure -> D); and %d "
+                 "deliveries one after the other through the same delivery number, every ordered tuple of the 9 fates, each command sent when the "
+                 "previous report has arrived: each report must be the verdict of its own child alone" % (pb, 2 if tier == "quick" else 3))
     res.rule += ("; program level (VK): the real qmail-remote process with the resolver, connect() and the peer scripted: 13 DNS situations (MX with "
                  "and without addresses, fallback to the host's address, no such domain, resolver failure, MX pointing back to this host, CNAME-only, "
                  "truncated/short MX records), 3 candidate addresses x {connected, refused, timed out, asynchronously connected/refused} each x "
@@ -54,6 +57,6 @@ def main(tier, replay=None):
                  "closed,stalled until the timeout} per phase; verdicts, order of reports, 'possible duplicate' flag and exit status against the reference")
     res.assumptions = ["reference verdict function written from qmail-remote(8) and the property statement (seq/c09_remote.c ref_verdict)",
                        "function level: network = harness stand-ins for timeoutread/timeoutwrite; program level: resolver answers, connect() results and the peer are scripted by the virtual kernel scenario (vk/scn_remote.cpp)"]
-    res.require_nonzero("evaluations", "verdict_K", "verdict_Z", "verdict_D", "possible_duplicate", "chained_into_report", "connect_attempts", "dns_queries", "messages_decoded_from_wire")
+    res.require_nonzero("evaluations", "verdict_K", "verdict_Z", "verdict_D", "possible_duplicate", "chained_into_report", "connect_attempts", "dns_queries", "messages_decoded_from_wire", "slot_reuses")
     lib_conformance(res, rd, src, ['io', 'num'], tier, asan=True)
     return res.finish()
